@@ -80,6 +80,9 @@ class CallMixin:
                 if isinstance(ta, bool):
                     return self.vbool(self.truth(self.ev(node.args[1]))) if ta else VBool(True)
                 sv = self.speculate(ta, node.args[1])
+                from .expr import VACUOUS
+                if sv is VACUOUS:
+                    return VBool(True)
                 if sv is not None:
                     tb = self.truth(sv)
                     return VBool(z3.Implies(ta, z3.BoolVal(tb) if isinstance(tb, bool) else tb))
